@@ -2116,7 +2116,7 @@ class Interp:
                     if j < len(ts):
                         flush()
                         inner = self.tmpl_items(nx['s'], env, node)
-                        items.append(('rep', inner, toks_text(sep)))
+                        items.append(self.lockstep_rep(inner, toks_text(sep), node))
                         i = j + 1
                         continue
             if t['t'] == 'g':
@@ -2132,6 +2132,31 @@ class Interp:
             i += 1
         flush()
         return items
+
+    def lockstep_rep(self, inner, sep, node):
+        """`#( .. #a .. #b .. ),*` with two or more interpolated sequences advances them in lockstep (quote zips them).  When all of them are
+        element-wise images of one source with the same selection (e.g. the two halves of an `unzip()`), the repetition is one iteration over
+        that source producing the inner template per element - the form `#(#items),*` with `items` a sequence of templates has."""
+        holes_ = [it for it in inner if it[0] == 'hole']
+        # (a single interpolated sequence with fixed tokens around each element - `#(#name: wgpu::VertexStepMode,)*` - is the same thing with one
+        # sequence; the plain `#(#items)sep*` is left as it is)
+        if not holes_ or (len(holes_) < 2 and len(inner) == 1) or any(it[0] == 'rep' for it in inner) or not all(h[2][0] == 'star' and not h[2][5] for h in holes_):
+            return ('rep', inner, sep)
+        if len(holes_) == 1 and holes_[0][2][3][0] in ('tmpl', 'alt', 'opt'):
+            return ('rep', inner, sep)      # fixed tokens around a sequence of templates (`#(self.#calls)*`): left as written
+        eid = self.fresh('e')
+        pipes = [self.as_pipeline(h[2], eid) for h in holes_]
+        s0, _, c0 = pipes[0]
+        for sx, bx, cx in pipes[1:]:
+            if alpha_key((s0, c0)) != alpha_key((sx, cx)):
+                return ('rep', inner, sep)
+        bodies = {id(h): b for h, (_, b, _) in zip(holes_, pipes)}
+        new_inner = [('hole', it[1], bodies[id(it)]) if it[0] == 'hole' else it for it in inner]
+        callee = self.frame['callee']
+        tid = f"{self.c.relfile(self.c.fns[callee]['file'])}:{node.get('line', 0)}:rep{len(self.templates)}"
+        self.templates.setdefault(tid, {'fn': callee, 'line': node.get('line', 0), 'text': self.tmpl_text(new_inner)})
+        star = ('star', s0, eid, ('tmpl', tid, new_inner, callee), list(c0), False)
+        return ('rep', [('hole', '__lockstep', star)], sep)
 
     def tmpl_text(self, items):
         return items_text(items)
@@ -2490,6 +2515,17 @@ class Interp:
             eid = self.fresh('e')
             sx, bx, cx = self.as_pipeline(recv, eid)
             sy, by, cy = self.as_pipeline(args[0], eid)
+
+            def over_map(src, body, conds):
+                # iterating map.keys() / map.values() visits the entries of the map in the same order as iterating the map: the element is the
+                # key / the value of the entry at that position
+                if src[0] == 'mcall' and src[2] in ('keys', 'values') and not src[3]:
+                    comp = ('tf', ('elem', eid, src[1]), 0 if src[2] == 'keys' else 1)
+                    return src[1], self.subst_elem(body, eid, comp), [self.subst_elem(c_, eid, comp) for c_ in conds]
+                return src, body, conds
+            if sx != sy:
+                sx, bx, cx = over_map(sx, bx, cx)
+                sy, by, cy = over_map(sy, by, cy)
             if alpha_key((sx, cx)) == alpha_key((sy, self.subst_elem(cy, eid, ('elem', eid, sx)))):
                 by = self.subst_elem(by, eid, ('elem', eid, sx))
                 return ('star', sx, eid, ('tuple', [bx, by]), cx, False)
